@@ -150,6 +150,7 @@ def run_case(idx, rng, tier, rep):
     cfg = dict(normalize_outbound_headers=rng.random() < 0.7, validate_outbound_headers=rng.random() < 0.75)
     h = scen.Hostile(e_client, cfg=cfg, keep_log=True)
     t = h.t
+    t.scramble = rng.random() < 0.5      # the application reuses its header lists as soon as a call has returned
     h.mdec.max_allowed_table_size = 2 ** 20
     retry = None
     for _ in range(rng.randrange(4, 15)):
